@@ -100,7 +100,7 @@ def rule_r1_r2(ctx, F, rule1='C04-R1', rule2='C04-R2', only_field=None):
                     if only_field and f != only_field:
                         continue
                     fed = []
-                    for bb_ in bodies_with_closures(F, body):
+                    for bb_ in bodies_with_closures(F, F.norm(body)):
                         for c in bb_.calls:
                             if not c.is_('Hash::hash', 'Hasher::write', 'Hasher::write_u8', 'Hasher::write_u32',
                                          'Hasher::write_u64', 'Hasher::write_usize'):
@@ -212,7 +212,8 @@ def rule_r3(ctx, F, rule='C04-R3'):
         coll = [f for f in fields if f['tree'].get('k') == 'adt' and f['tree']['path'] in COLLECTIONS]
         if not coll:
             continue
-        bodies = bodies_with_closures(F, body)
+        # read in normal form (A12): thread-local scopes, per-element closures and new helpers are spliced in
+        bodies = bodies_with_closures(F, F.norm(body))
         iterates = False
         feeds = []
         partial = []
